@@ -185,8 +185,10 @@ def list_subqueries(segment: BaseSegment) -> list[SubQueryTuple]:
         for join_clause in (
             list_join_clause(segment)
             if segment.type == "from_clause"
-            # one item of SQL89 style comma separated list, with explicit JOIN of its own
-            else segment.get_children("join_clause")
+            # one item of SQL89 style comma separated list, with explicit JOIN of its own, possibly in parenthesis
+            else segment.recursive_crawl(
+                "join_clause", no_recursive_seg_type="select_statement"
+            )
         ):
             if from_expression_element := find_from_expression_element(join_clause):
                 subquery += list_subqueries(from_expression_element)
